@@ -4,6 +4,7 @@
 //!        itv replay <ID> <file>
 //!        itv worker <kind> <cases-file> <shard> <nshards> <out-file>
 
+mod explore;
 mod keys;
 mod olpc;
 mod props;
